@@ -18,13 +18,18 @@ Absent == <<-1>>
 RangeOf(s) == {s[i] : i \in DOMAIN s}
 TypeOf(x) == x \div 10
 
+IsTail(t) == t \in {3, 4, 5}
+Canon(v) == SelectSeq(v, LAMBDA e : ~IsTail(TypeOf(e))) \o SelectSeq(v, LAMBDA e : TypeOf(e) = 3)
+            \o SelectSeq(v, LAMBDA e : TypeOf(e) = 4) \o SelectSeq(v, LAMBDA e : TypeOf(e) = 5)
 AddTo(kind, v, x) ==
     CASE kind = "append" -> Append(v, x)
       [] kind = "set" -> IF x \in RangeOf(v) THEN v ELSE Append(v, x)
       [] kind = "bytype" ->
-            IF \E i \in DOMAIN v : TypeOf(v[i]) = TypeOf(x)
-            THEN [i \in DOMAIN v |-> IF TypeOf(v[i]) = TypeOf(x) THEN x ELSE v[i]]
-            ELSE Append(v, x)
+            \* types 3, 4, 5 (MESSAGE-INTEGRITY, -SHA256, FINGERPRINT) have slots of their own and are
+            \* always read last, in that order (message.rs)
+            Canon(IF \E i \in DOMAIN v : TypeOf(v[i]) = TypeOf(x)
+                  THEN [i \in DOMAIN v |-> IF TypeOf(v[i]) = TypeOf(x) THEN x ELSE v[i]]
+                  ELSE Append(v, x))
 RemoveFrom(v, t) == SelectSeq(v, LAMBDA e : TypeOf(e) # t)
 
 \* op = [op, a, b, x]: "new" a | "clone" a -> b | "add" x to a | "remove" type x from a |
